@@ -6,7 +6,7 @@ from .nodeh import BV, SRC, COMMON_STUBS
 from .mharness import MCtx, mdischarge, module_of
 from .cpp01 import vtable_slots
 from .oracle import guard
-from .llbmc import Ptr, NULL, Unsupported, ptr_cases
+from .llbmc import Ptr, NULL, Unsupported, ptr_cases, State
 
 AG = 'src/libawkward/virtual/ArrayGenerator.cpp'
 
@@ -300,3 +300,202 @@ def h_virtual_array(has_cache):
 
 def jobs(tier):
     return [(h_generate_and_check, (False,), 1800), (h_generate_and_check, (True,), 1800), (h_virtual_array, (True,), 1800), (h_virtual_array, (False,), 1800)]
+
+
+# ------------------------------------------------------------------------------------------------ lazy range slicing of a virtual array
+AG = 'src/libawkward/virtual/ArrayGenerator.cpp'
+
+
+@guard
+def h_virtual_range(nowrap):
+    """VirtualArray::getitem_range(start, stop) on an array with a declared length L and nothing cached: the generator is NOT run; the answer is a
+    new virtual array whose declared length is len(range(*slice(start, stop).indices(L))) and whose generator will slice this very array with
+    exactly that range (step 1) when - and only when - data are needed; slicing the whole array [0:L] gives the array itself (a copy with the
+    same generator).  SliceGenerator::generate is checked separately (h_slice_generate)."""
+    from .cpp01 import struct_of
+    from .hlib import py_slice_indices
+    from .c18 import KNONE
+    mod = module_of(VA)
+    fo, sz, al, fields = mod.types.struct_layout(struct_of(mod, '_ZNK7awkward12VirtualArray5arrayEv'))
+    agm = module_of(AG)
+    trace = []
+
+    def s_gen(eng, fr, ins, st, name, argv):
+        trace.append(('generate', st.pc))
+        rec = st.mem.o[argv[0].obj]
+        rec.cells[argv[0].off] = (Ptr('generated', 0), 8); rec.cells[argv[0].off + 8] = (NULL, 8)
+        return None
+    stubs = dict(COMMON_STUBS)
+    stubs.update({'_ZN7awkward14ArrayGenerator18generate_and_checkEv': s_gen,
+                  '_ZN7awkward9check_keyERKNSt7__cxx1112basic_stringIcSt11char_traitsIcESaIcEEE': lambda *a: z3.BitVecVal(0, 32),
+                  '_ZN7awkward6kernel25fully_qualified_cache_keyENS0_3libERKNSt7__cxx1112basic_stringIcSt11char_traitsIcESaIcEEE': nodeh.s_empty_string,
+                  '_ZNK7awkward12VirtualArray9cache_keyB5cxx11Ev': nodeh.s_empty_string,
+                  '_ZN7awkward10ArrayCache6newkeyB5cxx11Ev': nodeh.s_empty_string, '_ZN7awkward10ArrayCache8next_keyB5cxx11Ev': nodeh.s_empty_string,
+                  '_ZNSt7__cxx1112basic_stringIcSt11char_traitsIcESaIcEEC1ERKS4_': nodeh.s_empty_string, '_ZNSt7__cxx1112basic_stringIcSt11char_traitsIcESaIcEEC2ERKS4_': nodeh.s_empty_string,
+                  '_ZNSt7__cxx1112basic_stringIcSt11char_traitsIcESaIcEE12_M_constructIPcEEvT_S7_St20forward_iterator_tag': stub_noop_keep})
+    m = MCtx([VA, AG, 'src/libawkward/Slice.cpp', 'src/libawkward/Content.cpp', 'src/libawkward/Identities.cpp', 'src/cpu-kernels/kernel-utils.cpp', 'src/libawkward/kernel-dispatch.cpp',
+              'src/libawkward/virtual/ArrayCache.cpp'], unwind=10, stubs=stubs)
+    L, start, stop = m.bv('declared_length'), m.bv('start'), m.bv('stop')
+    m.assume(L >= 0, L <= 2 ** 40)
+    if nowrap:
+        m.assume(start >= 0, start <= stop, stop <= L)
+    else:
+        m.assume(z3.Or(start == KNONE, z3.And(start >= -(2 ** 41), start <= 2 ** 41)), z3.Or(stop == KNONE, z3.And(stop >= -(2 ** 41), stop <= 2 ** 41)))
+    m.record('generated', {0: (NULL, 8)}, const=True)
+    m.record('genvt', {8 * j: (Ptr(('func', 'vf$gen%d' % j), 0), 8) for j in range(8)}, const=True)
+    m.record('gen', {0: (Ptr('genvt', 0), 8), 8: (NULL, 8), 16: (NULL, 8), 24: (NULL, 8), 32: (NULL, 8), 40: (L, 8)}, const=True)          # {vptr, form_ = null, inferred_form_ = null, length_}
+    cells = {0: (NULL, 8), fo[1]: (Ptr('gen', 0), 8), fo[1] + 8: (NULL, 8), fo[2]: (NULL, 8), fo[2] + 8: (NULL, 8)}
+    st0 = State({}, m.mem, z3.BoolVal(True))
+    vt = m.eng.global_ptr(st0, '@_ZTVN7awkward12VirtualArrayE', mod)
+    cells[0] = (Ptr(vt.obj, 16), 8)
+    cells.update({8: (NULL, 8), 16: (NULL, 8)})
+    nodeh_empty_map(cells, 24, 'va')
+    for k_ in range(len(fo)):
+        if fields[k_].strip() == 'i32':
+            cells[fo[k_]] = (z3.BitVecVal(0, 32), 4)
+        if 'basic_string' in fields[k_]:
+            cells.update({fo[k_]: (Ptr('va', fo[k_] + 16), 8), fo[k_] + 8: (BV(0), 8), fo[k_] + 16: (z3.BitVecVal(0, 8), 1)})
+        if 'std::vector' in fields[k_] and fo[k_] not in cells:
+            cells.update({fo[k_]: (NULL, 8), fo[k_] + 8: (NULL, 8), fo[k_] + 16: (NULL, 8)})
+    this = m.record('va', cells, const=True)
+    m.record('ret', {})
+    sym = '_ZNK7awkward12VirtualArray20getitem_range_nowrapEll' if nowrap else '_ZNK7awkward12VirtualArray13getitem_rangeEll'
+    out = m.call(sym, [Ptr('ret', 0), this, start, stop])
+    ran = z3.Or([t[1] for t in trace] + [z3.BoolVal(False)])
+    obls = [('lazy slicing does not raise', out.raised), ('the generator is not run by slicing', ran)]
+    a, b = (start, stop) if nowrap else py_slice_indices(start, stop, z3.BoolVal(True), L)
+    b = z3.If(b < a, a, b)
+    whole = z3.And(a == 0, b == L)
+    # decode the answer: a VirtualArray; its generator is either `gen` itself (whole array) or a SliceGenerator
+    for g, q in ptr_cases(m.cell('ret', 0)):
+        if q.obj is None:
+            obls.append(('an array is returned', z3.And(g, z3.Not(out.raised))))
+            continue
+        o = out.mem.o[q.obj]
+        gp = o.cells[q.off + fo[1]][0]
+        for g2, q2 in ptr_cases(gp):
+            gg = z3.And(g, g2, z3.Not(out.raised))
+            if q2.obj is None:
+                obls.append(('the answer has a generator', gg)); continue
+            if q2.obj == 'gen':
+                obls.append(('the array itself is returned only for the whole range', z3.And(gg, z3.Not(whole))))
+                continue
+            so = out.mem.o[q2.obj]
+            vp = so.cells[q2.off][0]
+            vcls = [str(c.obj) for _, c in ptr_cases(vp) if c.obj is not None]
+            if not vcls or 'SliceGenerator' not in vcls[0]:
+                obls.append(('the new generator is a slice generator', gg)); continue
+            sfo = agm.types.struct_layout(struct_of(agm, '_ZNK7awkward14SliceGenerator8generateEv'))[0]
+            obls.append(('a slice generator is made only for a proper sub-range', z3.And(gg, whole)))
+            obls.append(('the declared length of the answer is the number of selected items', z3.And(gg, so.cells[q2.off + 40][0] != b - a)))
+            cp = so.cells[q2.off + sfo[1]][0]
+            inner_ok = z3.BoolVal(False)
+            for g3, q3 in ptr_cases(cp):
+                if q3.obj is None:
+                    continue
+                co = out.mem.o[q3.obj]
+                ig = co.cells.get(q3.off + fo[1])
+                if ig is not None:
+                    inner_ok = z3.Or(inner_ok, z3.And(g3, z3.Or([gx for gx, qx in ptr_cases(ig[0]) if qx.obj == 'gen'] + [z3.BoolVal(False)])))
+            obls.append(('the slice generator slices this very array (same generator underneath)', z3.And(gg, z3.Not(inner_ok))))
+            # slice_: Slice {vector<SliceItemPtr> items_, sealed}
+            ib, ie = so.cells[q2.off + sfo[2]][0], so.cells[q2.off + sfo[2] + 8][0]
+            ibc = [c for _, c in ptr_cases(ib) if c.obj is not None]
+            iec = [c for _, c in ptr_cases(ie) if c.obj is not None]
+            if len(ibc) != 1 or len(iec) != 1:
+                raise Unsupported('slice items of the slice generator are not a single buffer')
+            nitems = (iec[0].off - ibc[0].off) // 16
+            obls.append(('the stored slice has exactly one item', z3.And(gg, z3.BoolVal(nitems != 1))))
+            if nitems >= 1:
+                ip = out.mem.o[ibc[0].obj].cells[ibc[0].off][0]
+                ic = [c for _, c in ptr_cases(ip) if c.obj is not None]
+                io = out.mem.o[ic[0].obj]
+                s0, s1, s2 = (io.cells[ic[0].off + 8 * k][0] for k in (1, 2, 3))
+                obls.append(('the stored slice is exactly the regularised range [a:b:1]', z3.And(gg, z3.Or(s0 != a, s1 != b, s2 != 1))))
+
+    def replay(model, ent):
+        import subprocess, os, json
+        from . import fullnative
+        ev = lambda t: model.eval(t, model_completion=True).as_signed_long()
+        Lv, sv, ev_ = ev(L), ev(start), ev(stop)
+        if Lv > 2000:
+            return False, 'declared length too large to replay', {}
+        exe = fullnative.link_driver(NATIVE_RANGE, 'virtrange')
+        r = subprocess.run([exe, str(Lv), str(sv), str(ev_), str(int(nowrap))], capture_output=True, text=True, timeout=30,
+                           env=dict(os.environ, ASAN_OPTIONS='detect_leaks=0', UBSAN_OPTIONS='halt_on_error=1:exitcode=87'), errors='replace')
+        try:
+            res = json.loads(r.stdout.strip().splitlines()[-1])
+        except (ValueError, IndexError):
+            return True, 'lazy slice [%s:%s] of a virtual array of declared length %d: native run crashed (%d) %s' % (sv, ev_, Lv, r.returncode, r.stderr[-200:]), {}
+        py = list(range(Lv))[slice(None if sv == KNONE else sv, None if ev_ == KNONE else ev_)]
+        want = dict(raised=0, generated_by_slicing=0, declared=len(py), values=py, generated_total=1)
+        payload = dict(length=Lv, start=sv, stop=ev_, native=res, expected=want)
+        if res.get('raised') or res.get('generated_by_slicing') != 0 or res.get('declared') != len(py) or res.get('values') != py or res.get('generated_total') != 1:
+            return True, 'lazy slice [%s:%s] of a virtual array of declared length %d: native %s, expected %s' % ('None' if sv == KNONE else sv, 'None' if ev_ == KNONE else ev_, Lv, res, want), payload
+        return False, 'native VirtualArray agrees (%s)' % res, payload
+    return mdischarge(m, 'VirtualArray::%s (declared length, nothing cached)' % ('getitem_range_nowrap' if nowrap else 'getitem_range'), obls,
+                      [('whole array', whole), ('proper sub-range', z3.And(z3.Not(whole), b > a))], replay=replay, timeout_ms=120000, prefer=[L <= 12, z3.Or(start == KNONE, z3.And(start >= -20, start <= 20)), z3.Or(stop == KNONE, z3.And(stop >= -20, stop <= 20))],
+                      extra=dict(bounds='declared length 0..2^40, start / stop any of None or |value| <= 2^41' if not nowrap else 'declared length 0..2^40, 0 <= start <= stop <= length'))
+
+
+NATIVE_RANGE = r'''
+#include <cstdio>
+#include <cstdlib>
+#include <stdexcept>
+#include <string>
+#include "awkward/virtual/ArrayGenerator.h"
+#include "awkward/virtual/ArrayCache.h"
+#include "awkward/array/VirtualArray.h"
+#include "awkward/array/NumpyArray.h"
+#include "awkward/Index.h"
+#include "awkward/Slice.h"
+using namespace awkward;
+static int generated = 0;
+class Gen : public ArrayGenerator {
+public:
+  int64_t n;
+  Gen(int64_t n_): ArrayGenerator(FormPtr(nullptr), n_), n(n_) { }
+  const ContentPtr generate() const override { generated++; Index64 idx(n); for (int64_t i = 0; i < n; i++) idx.data()[i] = i; return std::make_shared<NumpyArray>(idx); }
+  void caches(std::vector<ArrayCachePtr>&) const override { }
+  const std::string tostring_part(const std::string&, const std::string&, const std::string&) const override { return ""; }
+  const std::shared_ptr<ArrayGenerator> shallow_copy() const override { return std::make_shared<Gen>(n); }
+  const std::shared_ptr<ArrayGenerator> with_form(const FormPtr&) const override { return shallow_copy(); }
+  const std::shared_ptr<ArrayGenerator> with_length(int64_t) const override { return shallow_copy(); }
+  bool referentially_equal(const std::shared_ptr<ArrayGenerator>&) const override { return false; }
+};
+int main(int argc, char** argv) {
+  int64_t L = atoll(argv[1]), start = atoll(argv[2]), stop = atoll(argv[3]); bool nowrap = atoi(argv[4]) != 0;
+  VirtualArray va(Identities::none(), util::Parameters(), std::make_shared<Gen>(L), ArrayCachePtr(nullptr));
+  try {
+    ContentPtr out = nowrap ? va.getitem_range_nowrap(start, stop) : va.getitem_range(start, stop);
+    int g0 = generated;
+    VirtualArray* v = dynamic_cast<VirtualArray*>(out.get());
+    long long declared = v ? (long long)v->generator().get()->length() : -99;
+    ContentPtr mat = v ? v->array() : out;
+    printf("{\"raised\": 0, \"generated_by_slicing\": %d, \"declared\": %lld, \"values\": [", g0, declared);
+    for (int64_t i = 0; i < mat.get()->length(); i++) printf("%s%s", i ? ", " : "", mat.get()->getitem_at_nowrap(i).get()->tojson(false, -1).c_str());
+    printf("], \"generated_total\": %d}\n", generated);
+  } catch (std::exception& e) { printf("{\"raised\": 1}\n"); }
+  fflush(stdout); _Exit(0);
+}
+'''
+
+
+def nodeh_empty_map(cells, base, objname):
+    cells[base] = (z3.BitVecVal(0, 8), 1)
+    cells[base + 8] = (z3.BitVecVal(0, 32), 4)
+    cells[base + 16] = (NULL, 8)
+    cells[base + 24] = (Ptr(objname, base + 8), 8)
+    cells[base + 32] = (Ptr(objname, base + 8), 8)
+    cells[base + 40] = (BV(0), 8)
+
+
+def stub_noop_keep(eng, fr, ins, st, name, argv):
+    return None
+
+
+_jobs_virtual = jobs
+
+
+def jobs(tier):
+    return _jobs_virtual(tier) + [(h_virtual_range, (False,), 1800), (h_virtual_range, (True,), 1800)]
